@@ -14,7 +14,8 @@
    statements about this model; the verdicts come from the real code's traces only.                  *)
 EXTENDS EpMgr, TLC
 
-CONSTANTS AllowRename, AllowBatchRace, Variants
+CONSTANTS AllowRename, AllowBatchRace, Variants,
+          Fixed      \* TRUE: the repaired algorithm (hooks/fix-C44-shadowing.patch); FALSE: the algorithm as found
 
 VARIABLES pend,      \* Ids -> [has, rec]        pendingWlEpUpdates (rec = Dead for a removal)
           active,    \* Ids -> rec               activeWlEndpoints (Dead = absent)
@@ -70,37 +71,50 @@ RemoveActive(s, i) ==
               !.rts = IF old.live THEN [s.rts EXCEPT ![old.name] = {}] ELSE s.rts,
               !.nameToId = IF old.live THEN [s.nameToId EXCEPT ![old.name] = None] ELSE s.nameToId,
               !.active = [s.active EXCEPT ![i] = Dead]]
+BestShadowed(s, n) ==
+    \* repaired: a shadowed endpoint with a newer pending update/removal is superseded by it, never re-queued
+    LET c == { x \in Ids : s.shadowed[x].live /\ s.shadowed[x].name = n /\ (Fixed => ~s.pend[x].has) }
+    IN IF c = {} THEN None ELSE CHOOSE x \in c : \A y \in c : y = x \/ Less(x, y)
+\* re-queue the best endpoint shadowed on name n (the name's active endpoint has gone away)
+Promote(s, n) ==
+    LET b == BestShadowed(s, n) IN
+    IF b = None THEN s
+    ELSE [s EXCEPT !.pend = [s.pend EXCEPT ![b] = [has |-> TRUE, rec |-> s.shadowed[b]]],
+                   !.shadowed = [s.shadowed EXCEPT ![b] = Dead]]
 Activate(s, i, w) ==
     LET old == s.active[i]
-        s1 == IF old.live /\ old.name # w.name
+        renamed == old.live /\ old.name # w.name
+        s0 == IF renamed
               THEN [s EXCEPT !.chains = DropChains(s, i),
                              !.rts = [s.rts EXCEPT ![old.name] = {}],
                              !.nameToId = [s.nameToId EXCEPT ![old.name] = None]]
               ELSE s
+        \* repaired: the old name lost its active endpoint -> promote; the shadow copy of i is dropped
+        sd == [s0 EXCEPT !.shadowed = [s0.shadowed EXCEPT ![i] = Dead]]
+        s1 == IF Fixed THEN (IF renamed THEN Promote(sd, old.name) ELSE sd) ELSE s0
     IN [s1 EXCEPT !.chains = [s1.chains EXCEPT ![w.name] = [has |-> TRUE, c |-> Carry(w)]],
                   !.idChains = [s1.idChains EXCEPT ![i] = w.name],
                   !.rts = [s1.rts EXCEPT ![w.name] = IF w.up THEN w.nets ELSE {}],
                   !.active = [s1.active EXCEPT ![i] = w],
                   !.nameToId = [s1.nameToId EXCEPT ![w.name] = i],
                   !.pend = [s1.pend EXCEPT ![i] = NoPend]]
+Shadow(s, i, w) ==
+    \* repaired: an endpoint that was active under another name gives that state up before being shadowed
+    LET old == s.active[i]
+        s1 == IF Fixed /\ old.live THEN Promote(RemoveActive(s, i), old.name) ELSE s
+    IN [s1 EXCEPT !.shadowed = [s1.shadowed EXCEPT ![i] = w], !.pend = [s1.pend EXCEPT ![i] = NoPend]]
 ProcessUpdate(s, i, w) ==
     LET ex == s.nameToId[w.name] IN
     IF ex # None /\ ex # i
     THEN IF Less(ex, i)
-         THEN [s EXCEPT !.shadowed = [s.shadowed EXCEPT ![i] = w], !.pend = [s.pend EXCEPT ![i] = NoPend]]
+         THEN Shadow(s, i, w)
          ELSE Activate(RemoveActive([s EXCEPT !.shadowed = [s.shadowed EXCEPT ![ex] = s.active[ex]]], ex), i, w)
     ELSE Activate(s, i, w)
-BestShadowed(s, n) ==
-    LET c == { x \in Ids : s.shadowed[x].live /\ s.shadowed[x].name = n }
-    IN IF c = {} THEN None ELSE CHOOSE x \in c : \A y \in c : y = x \/ Less(x, y)
 ProcessRemove(s, i) ==
     LET old == s.active[i]
         s1 == RemoveActive(s, i)
         s2 == [s1 EXCEPT !.pend = [s1.pend EXCEPT ![i] = NoPend], !.shadowed = [s1.shadowed EXCEPT ![i] = Dead]]
-        b == IF old.live THEN BestShadowed(s2, old.name) ELSE None
-    IN IF b = None THEN s2
-       ELSE [s2 EXCEPT !.pend = [s2.pend EXCEPT ![b] = [has |-> TRUE, rec |-> s2.shadowed[b]]],
-                       !.shadowed = [s2.shadowed EXCEPT ![b] = Dead]]
+    IN IF old.live THEN Promote(s2, old.name) ELSE s2
 Apply(s) == /\ active' = s.active /\ nameToId' = s.nameToId /\ shadowed' = s.shadowed
             /\ idChains' = s.idChains /\ chains' = s.chains /\ rts' = s.rts /\ pend' = s.pend
 
